@@ -149,7 +149,8 @@ func TestC28(t *testing.T) {
 	r.Rule = "topology family (netsim.CombFamily: core meshes, trees, multi-homing, parallel links, peering subsets incl. parallel / leaf / " +
 		"core peering, 2-3 ISDs, also with the ISDs re-using the same AS numbers) x parameter perturbations re-beaconed through the real extender (each AS: MTU and MaxExpTime lowered; each link: " +
 		"MTU lowered; second, older beacon generation in both supply orders; newer generation expiring earlier via one AS; all segments of " +
-		"all ASes supplied; detachable EPIC extension on all / every second / each single AS and on one of two generations; static-info + discovery extensions on all / every second AS, also with EPIC; thorough: also all ordered pairs of these) x all ordered AS pairs x findAllIdentical {false,true} x every returned " +
+		"all ASes supplied; segments re-built through pkg/segment with peer entries whose ExpTime / MTU / egress differ from the hop entry of their AS entry " +
+		"and with per-entry lifetimes and MTUs (MACs recomputed, own signer); detachable EPIC extension on all / every second / each single AS and on one of two generations; static-info + discovery extensions on all / every second AS, also with EPIC; thorough: also all ordered pairs of these) x all ordered AS pairs x findAllIdentical {false,true} x every returned " +
 		"path; distinct key = variant + pair + mode + info/hop fields of the path; non-trivial = all returned paths"
 	thorough := mc.Thorough()
 	maxLen := mc.Pick(5, 6)
@@ -274,6 +275,9 @@ func TestC28(t *testing.T) {
 									r.Violation("metadata-interfaces-differ-from-hop-fields/"+c.Kind, pd("expected_interfaces", c28IfaceKey(wifs), "segments", c28UsesString(c)))
 								}
 								topoMTU, problem := c28TopoWalk(ss.N, srcIA, dstIA, mifs)
+								if ss.Rebuilt { // re-built entries deliberately deviate from the topology: model only
+									topoMTU, problem = c.MTU, ""
+								}
 								if problem != "" {
 									r.Violation("metadata-interfaces-not-a-link-chain-from-src-to-dst", pd("problem", problem, "segments", c28UsesString(c)))
 								}
@@ -365,6 +369,12 @@ func TestC28(t *testing.T) {
 									if l >= 0 {
 										extSeen["paths_with_announced_latency"]++
 										break
+									}
+								}
+								if c.PeerDiffers {
+									r.Outcome("ok-peer-hop-field-differs-from-hop-entry-of-its-as-entry")
+									if c.ExpPeer && !c.ExpTie {
+										expSegs["(of which: earliest expiry is a peer hop field's that differs from its hop entry)"]++
 									}
 								}
 								if c28SharedNumber(mifs) {
